@@ -1172,6 +1172,91 @@ func checkRound5Small(c *Ctx, id string) {
 		} else {
 			r.Unk("C14.select-sets-keymap", "(*completion.Engine).Select", "-", "anchor not found")
 		}
+		// the removable suffix: only a character the matcher designates is removed
+		r.Rule("C14.trim-designated-suffix", "K4", "(*completion.Engine).TrimSuffix removes the character before the cursor only when the suffix matcher of the inserted candidate designates that character (SuffixMatcher.Matches on the rune read from the line): assuming the matcher does not match it, no Line.CutRune / Line.Cut is reachable — otherwise `NoSpace('/')` makes a space typed after the candidate \"bench\" delete its last letter", 1)
+		if TS := p.Func("(*completion.Engine).TrimSuffix"); TS != nil {
+			r.Fn(fnName(TS))
+			fromLine := func(v ssa.Value) bool {
+				return dependsOn(v, func(x ssa.Value) bool {
+					u, ok := x.(*ssa.UnOp)
+					if !ok || u.Op != token.MUL {
+						return false
+					}
+					ia, ok := u.X.(*ssa.IndexAddr)
+					return ok && strings.Contains(typeStr(ia.X.Type()), "core.Line")
+				})
+			}
+			nTests := 0
+			w := reachUnder(TS, func(c ssa.Value) (bool, bool) {
+				cl, ok := c.(*ssa.Call)
+				if !ok || !strings.HasSuffix(calleeName(cl), "SuffixMatcher).Matches") {
+					return false, false
+				}
+				if !fromLine(cl.Call.Args[len(cl.Call.Args)-1]) {
+					return false, false
+				}
+				nTests++
+				return false, true
+			}, func(x ssa.Instruction) bool { return isCallTo(x, "(*core.Line).CutRune", "(*core.Line).Cut") }, nil)
+			pos := p.Pos(TS.Pos())
+			if w != nil {
+				pos = p.IPos(w)
+			}
+			why := "a removal is reachable although the matcher does not designate the character before the cursor"
+			if nTests == 0 {
+				why = "the character before the cursor is never tested against the suffix matcher: whatever it is, a space (or a matcher key) typed after the candidate removes it"
+			}
+			r.Check(w == nil, "C14.trim-designated-suffix", "(*completion.Engine).TrimSuffix:removal", pos, "removal only under Matches(character before the cursor)", why)
+		} else {
+			r.Unk("C14.trim-designated-suffix", "(*completion.Engine).TrimSuffix", "-", "anchor not found")
+		}
+		// a candidate made part of the real line has consumed the prefix
+		r.Rule("C14.accepted-prefix-consumed", "K1", "wherever the completion engine makes a candidate part of the real line — Engine.line set from the completed line (Cancel), or the candidate inserted at the real cursor (acceptCandidate) — Engine.prefix is emptied before the function returns: the menu can insert another candidate from the same list afterwards (accept-and-menu-complete), and with the old prefix it would cut that many characters off the end of the accepted one", 2)
+		{
+			n := 0
+			for _, f := range p.RepoFuncs {
+				if f.Pkg == nil || f.Pkg.Pkg.Name() != "completion" {
+					continue
+				}
+				clears := func(x ssa.Instruction) bool {
+					st, ok := isFieldStore(x, "completion.Engine", "prefix")
+					if !ok {
+						return false
+					}
+					k, isK := constString(st.Val)
+					return isK && k == ""
+				}
+				eachInstr(f, func(in ssa.Instruction) {
+					cl, ok := in.(*ssa.Call)
+					if !ok {
+						return
+					}
+					what := ""
+					switch calleeName(cl) {
+					case "(*core.Line).Set":
+						args := cl.Call.Args
+						if isFieldLoad(args[0], "completion.Engine", "line") && dependsOn(args[1], func(v ssa.Value) bool { return isFieldLoad(v, "completion.Engine", "compLine") }) {
+							what = "line=compLine"
+						}
+					case "(*core.Cursor).InsertAt":
+						args := cl.Call.Args
+						if isFieldLoad(args[0], "completion.Engine", "cursor") && dependsOn(args[1], func(v ssa.Value) bool { return isFieldLoad(v, "completion.Engine", "inserted") }) {
+							what = "cursor.InsertAt(inserted)"
+						}
+					}
+					if what == "" {
+						return
+					}
+					n++
+					r.Fn(fnName(f))
+					w := pathAvoiding(f, in, func(x ssa.Instruction) bool { return isReturn(x) && x.Block() != f.Recover }, clears)
+					r.Check(w == nil, "C14.accepted-prefix-consumed", fmt.Sprintf("%s:%s", fnName(f), what), p.IPos(in), "prefix = \"\" follows on every path", "the candidate becomes part of the real line and the function can return with the old prefix: the next candidate inserted from the same list cuts len(prefix) characters off the accepted one (`git c<Tab>` then accept-and-menu-complete gave \"git checkoucherry-pick\")")
+				})
+			}
+			if n == 0 {
+				r.Unk("C14.accepted-prefix-consumed", "completion", "-", "no place found where a candidate becomes part of the real line: anchors changed")
+			}
+		}
 	case "C04":
 		r.Rule("C04.column-comes-down", "K1", "displayMultilinePrompts moves the cursor up to the first row of the buffer before calling (*ui.Prompt).MultilineColumnPrint, which comes back down while printing the column: every path through MultilineColumnPrint prints something (the rows to go down), also when no column is configured — otherwise the cursor stays on the first row and what follows overwrites the prompt and erases the other lines", 1)
 		if MC := p.Func("(*ui.Prompt).MultilineColumnPrint"); MC != nil {
